@@ -115,7 +115,9 @@ func (cc *ChangeCollector) GetChanges() []*NodeChange {
 	changes := make([]*NodeChange, len(cc.Changes))
 	idx := 0
 	for _, v := range cc.Changes {
-		changes[idx] = v
+		// a copy: AddChange updates the collector's own record in place when a
+		// changed node changes again, the caller's snapshot must not follow
+		changes[idx] = &NodeChange{Old: v.Old, New: v.New}
 		idx++
 	}
 	return changes
